@@ -446,6 +446,9 @@ func (ev *Evaluator) selectPath(base Value, sel *types.Selection, n ast.Node) Va
 		}
 		cur = s.Fields[f.Name()]
 		t = f.Type()
+		if cur == nil {
+			cur = ev.zero(t)
+		}
 	}
 	return cur
 }
@@ -580,6 +583,18 @@ func (ev *Evaluator) evalBinary(x *ast.BinaryExpr, env *Env) Value {
 
 func (ev *Evaluator) zero(t types.Type) Value {
 	switch u := t.Underlying().(type) {
+	case *types.Basic:
+		switch {
+		case u.Info()&types.IsBoolean != 0:
+			return Bool{false}
+		case u.Info()&types.IsString != 0:
+			return Str{""}
+		case u.Info()&types.IsInteger != 0:
+			return Int{0}
+		case u.Info()&types.IsFloat != 0:
+			return Float{0}
+		}
+		return nil
 	case *types.Struct:
 		return &Struct{Type: typeName(t), T: t, Fields: map[string]Value{}}
 	case *types.Array:
@@ -825,6 +840,26 @@ func (ev *Evaluator) stmt(s ast.Stmt, env *Env, fr *Frame) ctl {
 		}
 		return ctlNone
 	case *ast.AssignStmt:
+		if len(x.Lhs) == 2 && len(x.Rhs) == 1 {
+			// comma-ok map lookup
+			if ix, ok := x.Rhs[0].(*ast.IndexExpr); ok {
+				if m, ok := ev.Eval(ix.X, env).(*Map); ok {
+					k := ev.Eval(ix.Index, env)
+					if _, bad := k.(Unknown); !bad {
+						v, found := m.Get(k)
+						if !found {
+							if mt, ok := ev.Info.TypeOf(ix.X).Underlying().(*types.Map); ok {
+								v = ev.zero(mt.Elem())
+							}
+						}
+						if c := ev.assign(x.Lhs[0], v, env, x.Tok == token.DEFINE); c != ctlNone {
+							return c
+						}
+						return ev.assign(x.Lhs[1], Bool{found}, env, x.Tok == token.DEFINE)
+					}
+				}
+			}
+		}
 		if len(x.Lhs) != len(x.Rhs) {
 			return ev.abort(x, "tuple assignment")
 		}
@@ -916,6 +951,52 @@ func (ev *Evaluator) stmt(s ast.Stmt, env *Env, fr *Frame) ctl {
 			}
 			if ev.Steps > maxSteps {
 				return ev.abort(x, "step budget exceeded")
+			}
+		}
+		return ctlNone
+	case *ast.RangeStmt:
+		coll := ev.Eval(x.X, env)
+		type kv struct{ k, v Value }
+		var items []kv
+		switch cv := coll.(type) {
+		case *Slice:
+			for i, e := range cv.Elems {
+				items = append(items, kv{Int{int64(i)}, e})
+			}
+		case *Map:
+			for _, e := range cv.Entries {
+				items = append(items, kv{e.K, e.V})
+			}
+		case nil:
+		default:
+			return ev.abort(x, "range over undetermined collection")
+		}
+		for _, it := range items {
+			inner := NewEnv(env)
+			if x.Key != nil {
+				if id, ok := x.Key.(*ast.Ident); ok && id.Name != "_" {
+					if x.Tok == token.DEFINE {
+						inner.Bind(ev.Info.Defs[id], it.k)
+					} else if c := ev.assign(x.Key, it.k, inner, false); c != ctlNone {
+						return c
+					}
+				}
+			}
+			if x.Value != nil {
+				if id, ok := x.Value.(*ast.Ident); ok && id.Name != "_" {
+					if x.Tok == token.DEFINE {
+						inner.Bind(ev.Info.Defs[id], it.v)
+					} else if c := ev.assign(x.Value, it.v, inner, false); c != ctlNone {
+						return c
+					}
+				}
+			}
+			c := ev.block(x.Body.List, inner, fr)
+			if c == ctlBreak {
+				break
+			}
+			if c == ctlReturn || c == ctlAbort {
+				return c
 			}
 		}
 		return ctlNone
